@@ -11,14 +11,19 @@ from .harness import new_result, fail, bump
 PROP = 'C08'
 RUNS = {'quick': 24000, 'thorough': 1200000}
 BUDGET_S = {'quick': 120, 'thorough': 2000}
-CHUNK = 400
+CHUNK = 100
 PROPS = {'C08'}
 
 def init():
     lockstep.init()
     p08_hist.init()
 
+N_PAIRS = {'quick': 420, 'thorough': p08_hist.pairs_total()}
+
 def gen(rng, tier, index):
+    if index < N_PAIRS[tier]:
+        # exhaustive length-2 pager histories: thorough enumerates all (copy, engine, v1); quick draws a seeded subset
+        return p08_hist.gen_pairs(index if tier == 'thorough' else rng.randrange(p08_hist.pairs_total()))
     if index % 4 == 3:
         return p08_hist.gen(rng, tier, index // 4)
     index = index - index // 4 - 1 if index % 4 == 3 else index - index // 4
@@ -43,7 +48,7 @@ def gen(rng, tier, index):
     return scn
 
 def run(scn):
-    if scn['kind'] in ('pager-sim', 'skool-memory'):
+    if scn['kind'] in ('pager-sim', 'skool-memory', 'pager-pairs'):
         return p08_hist.run(scn)
     res = new_result()
     sigs = set()
@@ -56,13 +61,13 @@ def run(scn):
     return res
 
 def sample(scn, res):
-    if scn['kind'] in ('pager-sim', 'skool-memory'):
+    if scn['kind'] in ('pager-sim', 'skool-memory', 'pager-pairs'):
         return {k: v for k, v in scn.items() if k != 'banks'}
     return {'kind': scn['kind'], 'machine': scn['machine'], 'slot': scn.get('slot'), 'steps': scn['steps'], 'ints': scn['ints'],
             'regs': scn['regs'], 'o7ffd': scn['mem'].get('o7ffd'), 'patches': scn['mem']['patches'][-1:]}
 
 def shrink_candidates(scn):
-    if scn['kind'] in ('pager-sim', 'skool-memory'):
+    if scn['kind'] in ('pager-sim', 'skool-memory', 'pager-pairs'):
         return p08_hist.shrink_candidates(scn)
     return gen_lock.shrink_candidates(scn)
 
